@@ -6,6 +6,7 @@ negation structure of Grid.__ne__.  Assumed: DataArray.equals is value/shape equ
 from __future__ import annotations
 
 import ast
+import itertools
 
 from ..astutil import norm, where
 from ..flow import decision_table
@@ -14,7 +15,9 @@ from ..loader import AnalysisIncomplete, dotted
 GRID = "uxarray/grid/grid.py"
 REQUIRED = ["isinstance", "source_grid_spec", "node_lon", "node_lat", "face_node_connectivity"]
 # comparisons implied by the required ones (sizes/shapes of the same arrays) are tolerated
-IMPLIED = {"n_node", "n_face", "n_max_face_nodes", "sizes", "dims", "shape"}
+IMPLIED = {"n_node", "n_face", "n_max_face_nodes", "shape"}
+# Grid.sizes / Grid.dims list EVERY dimension present in _ds, including those of lazily constructed variables (n_edge, ...): they depend on what has been
+# requested from each grid so far and are NOT implied by the compared fields
 
 
 def _strip_root(node):
@@ -250,7 +253,8 @@ def check(run):
             if isinstance(a, ast.Compare) and len(a.ops) == 1 and isinstance(a.ops[0], ast.Eq):
                 return {norm(a.left), norm(a.comparators[0])} == {ne_self, ne_other}
             return False
-        if len(n_atoms) == 1 and is_eq_call(n_atoms[0]):
+        eq_calls = [a for a in n_atoms if is_eq_call(a)]
+        if len(n_atoms) == 1 and eq_calls:
             got = {vals[0]: res for vals, res in n_table.items()}
             if got.get(True) == ("const", False) and got.get(False) == ("const", True):
                 run.holds("F-PATH/ne-negation", k, where(ne), "returns False exactly when __eq__(other) is true")
@@ -259,6 +263,35 @@ def check(run):
         elif not n_atoms:
             vals = {res for res in n_table.values()}
             run.violation("F-PATH/ne-negation", k, where(ne), f"__ne__ does not depend on __eq__ (returns {sorted(str(v[1]) for v in vals)})")
+        elif len(eq_calls) == 1 and ne_self == self_name and ne_other == other_name:
+            # further atoms: evaluate __ne__ jointly with __eq__'s own truth table.  Atoms shared with __eq__ take the same value in both; an atom over a field that
+            # __eq__ neither compares nor implies is free (e.g. Grid.sizes, which depends on what was lazily constructed).
+            e_keys = [norm(a) for a in atoms]
+            extra = [a for a in n_atoms if not is_eq_call(a) and norm(a) not in e_keys]
+            extra_info = [classify_atom(a, ne_self, ne_other) for a in extra]
+            free = all(ci is not None and ci[0] not in IMPLIED and ci[0] not in fields for ci in extra_info)
+            witness = None
+            for evals, (_t, eres) in table.items():
+                if eres not in (True, False):
+                    continue
+                easg = dict(zip(e_keys, evals))
+                for xvals in itertools.product([True, False], repeat=len(extra)):
+                    asg = dict(easg)
+                    asg.update({norm(a): v for a, v in zip(extra, xvals)})
+                    asg[norm(eq_calls[0])] = eres
+                    nres = n_table[tuple(asg[norm(a)] for a in n_atoms)][1]
+                    if nres is not (not eres):
+                        witness = ({kk: vv for kk, vv in asg.items() if kk != norm(eq_calls[0])}, eres, nres)
+                        break
+                if witness:
+                    break
+            if witness is None:
+                run.holds("F-PATH/ne-negation", k, where(ne), f"joint truth table with __eq__ over {len(e_keys) + len(extra)} atoms: __ne__ is its negation on every assignment")
+            elif free or not extra:
+                run.violation("F-PATH/ne-negation", k, where(ne), f"__ne__ returns {witness[2]} while __eq__ returns {witness[1]} when {witness[0]}: "
+                              f"{[norm(a)[:40] for a in extra]} is decided independently of the fields __eq__ compares, so a == b and a != b can both hold", facts={"assignment": witness[0]})
+            else:
+                run.incomplete("F-PATH/ne-negation", k, where(ne), f"__ne__ differs from not __eq__ only under {witness[0]}, which may be infeasible: {[norm(a)[:40] for a in extra]} may be implied by the compared fields")
         else:
             run.incomplete("F-PATH/ne-negation", k, where(ne), f"__ne__ depends on {[norm(a)[:50] for a in n_atoms]}: not recognised as a function of self.__eq__(other) alone")
     # "a copy of a grid equals the grid": copy() re-runs Grid.__init__, so what the getters store must already be in the range __init__ normalises to,
